@@ -300,4 +300,222 @@ theorem divstep_facts (x y : Nat) (hy : 0 < y) (hle : y ≤ x) :
   have e2 : q * y = y * q := Nat.mul_comm _ _
   omega
 
+/-! ### the loop -/
+
+section loop
+variable {A0 B0 : Nat} (hA : A0 < B * B) (hB : B0 < B * B)
+include hA hB
+
+omit hA hB in
+theorem hinv_post {pt : HPt} {a b : Nat} {m : M1} (h : HInv A0 B0 pt a b m) : Post A0 B0 m := by
+  cases pt
+  · exact dinv_post h.1
+  · exact dinv_post h.1
+  · exact sinv_post h.1
+  · exact sinv_post h.1
+
+theorem loop_dA {f a b : Nat} {m : M1}
+    (ih : ∀ pt a b m, HInv A0 B0 pt a b m → Post A0 B0 (hgcd2Loop f pt a b m))
+    (h : HInv A0 B0 .dA a b m) : Post A0 B0 (hgcd2Loop (f + 1) .dA a b m) := by
+  obtain ⟨hd, hord⟩ := h
+  have hd' := hd
+  obtain ⟨hr, h2a, h2b, hn⟩ := hd'
+  obtain ⟨la, lb⟩ := mrel_le hr
+  have haBB : a < B * B := lt_of_le_of_lt la hA
+  have hbBB : b < B * B := lt_of_le_of_lt lb hB
+  unfold hgcd2Loop
+  dsimp only
+  by_cases e1 : a / B = b / B
+  · rw [if_pos e1]; exact dinv_post hd
+  rw [if_neg e1]
+  have hlt : b < a := Nat.lt_of_div_lt_div (by omega : b / B < a / B)
+  by_cases e2 : a / B < HALF
+  · rw [if_pos e2]
+    exact ih .sA _ _ _ ⟨dinv_switch hd e2 (by omega), by
+      have : b / 2 ^ 32 ≤ a / 2 ^ 32 := Nat.div_le_div_right (le_of_lt hlt)
+      rw [Nat.shiftLeft_eq, Nat.shiftRight_eq_div_pow, Nat.shiftLeft_eq, Nat.shiftRight_eq_div_pow]
+      simp only [B_eq] at *; omega⟩
+  rw [if_neg e2]
+  by_cases e3 : (a - b) / B < 2
+  · rw [if_pos e3]; exact dinv_post hd
+  rw [if_neg e3]
+  have h2ab : 2 * B ≤ a - b := by simp only [B_eq] at *; omega
+  by_cases e4 : (a - b) / B ≤ b / B
+  · rw [if_pos e4]
+    have hd1 := dinv_subA 1 hd (by omega) (by rw [Nat.one_mul]; exact h2ab)
+    simp only [Nat.one_mul] at hd1
+    have hu := updA_eq (q := 1) hA hB (by simp only [Nat.one_mul]; exact dinv_post hd1)
+    simp only [Nat.one_mul] at hu
+    rw [hu]
+    exact ih .dB _ _ _ ⟨hd1, e4⟩
+  rw [if_neg e4]
+  have hb0 : B ≤ b := by omega
+  have hdiv := div2_spec (a - b) b (by omega) hb0 hbBB
+  rw [show div2 (a - b) b = ((a - b) / b, (a - b) % b) from Prod.ext hdiv.1 hdiv.2]
+  dsimp only
+  obtain ⟨f1, f2, f3, f4, f5⟩ := divstep_facts a b (lt_of_lt_of_le B_pos hb0) (le_of_lt hlt)
+  by_cases e5 : (a - b) % b / B < 2
+  · rw [if_pos e5]
+    have hd1 := dinv_subA ((a - b) / b) hd f1 (by rw [f2]; exact Nat.le_trans h2b (Nat.le_add_left _ _))
+    rw [updA_eq hA hB (dinv_post hd1)]
+    exact dinv_post hd1
+  · rw [if_neg e5]
+    have hq : (a - b) / b + 1 < B := by
+      have : (a - b) / b ≤ (a - b) / (2 * B) := Nat.div_le_div_left h2b (by rw [B_eq]; norm_num)
+      simp only [B_eq] at *; omega
+    rw [Nat.mod_eq_of_lt hq]
+    have hd1 := dinv_subA ((a - b) / b + 1) hd f3 (by rw [f4]; simp only [B_eq] at *; omega)
+    rw [updA_eq hA hB (dinv_post hd1)]
+    rw [f4] at hd1
+    exact ih .dB _ _ _ ⟨hd1, Nat.div_le_div_right (le_of_lt f5)⟩
+
+theorem loop_dB {f a b : Nat} {m : M1}
+    (ih : ∀ pt a b m, HInv A0 B0 pt a b m → Post A0 B0 (hgcd2Loop f pt a b m))
+    (h : HInv A0 B0 .dB a b m) : Post A0 B0 (hgcd2Loop (f + 1) .dB a b m) := by
+  obtain ⟨hd, hord⟩ := h
+  have hd' := hd
+  obtain ⟨hr, h2a, h2b, hn⟩ := hd'
+  obtain ⟨la, lb⟩ := mrel_le hr
+  have haBB : a < B * B := lt_of_le_of_lt la hA
+  have hbBB : b < B * B := lt_of_le_of_lt lb hB
+  unfold hgcd2Loop
+  dsimp only
+  by_cases e1 : a / B = b / B
+  · rw [if_pos e1]; exact dinv_post hd
+  rw [if_neg e1]
+  have hlt : a < b := Nat.lt_of_div_lt_div (by omega : a / B < b / B)
+  by_cases e2 : b / B < HALF
+  · rw [if_pos e2]
+    exact ih .sB _ _ _ ⟨dinv_switch hd (by omega) e2, by
+      have : a / 2 ^ 32 ≤ b / 2 ^ 32 := Nat.div_le_div_right (le_of_lt hlt)
+      rw [Nat.shiftLeft_eq, Nat.shiftRight_eq_div_pow, Nat.shiftLeft_eq, Nat.shiftRight_eq_div_pow]
+      simp only [B_eq] at *; omega⟩
+  rw [if_neg e2]
+  by_cases e3 : (b - a) / B < 2
+  · rw [if_pos e3]; exact dinv_post hd
+  rw [if_neg e3]
+  have h2ab : 2 * B ≤ b - a := by simp only [B_eq] at *; omega
+  by_cases e4 : (b - a) / B ≤ a / B
+  · rw [if_pos e4]
+    have hd1 := dinv_subB 1 hd (by omega) (by rw [Nat.one_mul]; exact h2ab)
+    simp only [Nat.one_mul] at hd1
+    have hu := updB_eq (q := 1) hA hB (by simp only [Nat.one_mul]; exact dinv_post hd1)
+    simp only [Nat.one_mul] at hu
+    rw [hu]
+    exact ih .dA _ _ _ ⟨hd1, e4⟩
+  rw [if_neg e4]
+  have ha0 : B ≤ a := by omega
+  have hdiv := div2_spec (b - a) a (by omega) ha0 haBB
+  rw [show div2 (b - a) a = ((b - a) / a, (b - a) % a) from Prod.ext hdiv.1 hdiv.2]
+  dsimp only
+  obtain ⟨f1, f2, f3, f4, f5⟩ := divstep_facts b a (lt_of_lt_of_le B_pos ha0) (le_of_lt hlt)
+  by_cases e5 : (b - a) % a / B < 2
+  · rw [if_pos e5]
+    have hd1 := dinv_subB ((b - a) / a) hd f1 (by rw [f2]; exact Nat.le_trans h2a (Nat.le_add_left _ _))
+    rw [updB_eq hA hB (dinv_post hd1)]
+    exact dinv_post hd1
+  · rw [if_neg e5]
+    have hq : (b - a) / a + 1 < B := by
+      have : (b - a) / a ≤ (b - a) / (2 * B) := Nat.div_le_div_left h2a (by rw [B_eq]; norm_num)
+      simp only [B_eq] at *; omega
+    rw [Nat.mod_eq_of_lt hq]
+    have hd1 := dinv_subB ((b - a) / a + 1) hd f3 (by rw [f4]; simp only [B_eq] at *; omega)
+    rw [updB_eq hA hB (dinv_post hd1)]
+    rw [f4] at hd1
+    exact ih .dA _ _ _ ⟨hd1, Nat.div_le_div_right (le_of_lt f5)⟩
+
+theorem loop_sA {f a b : Nat} {m : M1}
+    (ih : ∀ pt a b m, HInv A0 B0 pt a b m → Post A0 B0 (hgcd2Loop f pt a b m))
+    (h : HInv A0 B0 .sA a b m) : Post A0 B0 (hgcd2Loop (f + 1) .sA a b m) := by
+  obtain ⟨hs, hord⟩ := h
+  obtain ⟨haB, hbB⟩ := sinv_lt hs
+  have h2b : 2 ^ 33 ≤ b := by obtain ⟨_, _, _, _, _, _, _, _, _, _, h, _⟩ := hs; exact h
+  unfold hgcd2Loop
+  dsimp only
+  by_cases e3 : a - b < 2 * HALF
+  · rw [if_pos e3]; exact sinv_post hs
+  rw [if_neg e3]
+  have h2ab : 2 ^ 33 ≤ a - b := by simp only [HALF] at e3; omega
+  by_cases e4 : a - b ≤ b
+  · rw [if_pos e4]
+    have hs1 := sinv_subA 1 hs (by omega) (by rw [Nat.one_mul]; exact h2ab)
+    simp only [Nat.one_mul] at hs1
+    have hu := updA_eq (q := 1) hA hB (by simp only [Nat.one_mul]; exact sinv_post hs1)
+    simp only [Nat.one_mul] at hu
+    rw [hu]
+    exact ih .sB _ _ _ ⟨hs1, e4⟩
+  rw [if_neg e4]
+  have hdiv := div1_spec (a - b) b (by omega) (by omega) hbB
+  rw [show div1 (a - b) b = ((a - b) / b, (a - b) % b) from Prod.ext hdiv.1 hdiv.2]
+  dsimp only
+  obtain ⟨f1, f2, f3, f4, f5⟩ := divstep_facts a b (by omega) hord
+  by_cases e5 : (a - b) % b < 2 * HALF
+  · rw [if_pos e5]
+    have hs1 := sinv_subA ((a - b) / b) hs f1 (by rw [f2]; omega)
+    rw [updA_eq hA hB (sinv_post hs1)]
+    exact sinv_post hs1
+  · rw [if_neg e5]
+    have hq : (a - b) / b + 1 < B := by
+      have : (a - b) / b ≤ (a - b) / 2 ^ 33 := Nat.div_le_div_left h2b (by norm_num)
+      simp only [B_eq] at *; omega
+    rw [Nat.mod_eq_of_lt hq]
+    have hs1 := sinv_subA ((a - b) / b + 1) hs f3 (by rw [f4]; simp only [HALF] at e5; omega)
+    rw [updA_eq hA hB (sinv_post hs1)]
+    rw [f4] at hs1
+    exact ih .sB _ _ _ ⟨hs1, le_of_lt f5⟩
+
+theorem loop_sB {f a b : Nat} {m : M1}
+    (ih : ∀ pt a b m, HInv A0 B0 pt a b m → Post A0 B0 (hgcd2Loop f pt a b m))
+    (h : HInv A0 B0 .sB a b m) : Post A0 B0 (hgcd2Loop (f + 1) .sB a b m) := by
+  obtain ⟨hs, hord⟩ := h
+  obtain ⟨haB, hbB⟩ := sinv_lt hs
+  have h2a : 2 ^ 33 ≤ a := by obtain ⟨_, _, _, _, _, _, _, _, _, h, _, _⟩ := hs; exact h
+  unfold hgcd2Loop
+  dsimp only
+  by_cases e3 : b - a < 2 * HALF
+  · rw [if_pos e3]; exact sinv_post hs
+  rw [if_neg e3]
+  have h2ab : 2 ^ 33 ≤ b - a := by simp only [HALF] at e3; omega
+  by_cases e4 : b - a ≤ a
+  · rw [if_pos e4]
+    have hs1 := sinv_subB 1 hs (by omega) (by rw [Nat.one_mul]; exact h2ab)
+    simp only [Nat.one_mul] at hs1
+    have hu := updB_eq (q := 1) hA hB (by simp only [Nat.one_mul]; exact sinv_post hs1)
+    simp only [Nat.one_mul] at hu
+    rw [hu]
+    exact ih .sA _ _ _ ⟨hs1, e4⟩
+  rw [if_neg e4]
+  have hdiv := div1_spec (b - a) a (by omega) (by omega) haB
+  rw [show div1 (b - a) a = ((b - a) / a, (b - a) % a) from Prod.ext hdiv.1 hdiv.2]
+  dsimp only
+  obtain ⟨f1, f2, f3, f4, f5⟩ := divstep_facts b a (by omega) hord
+  by_cases e5 : (b - a) % a < 2 * HALF
+  · rw [if_pos e5]
+    have hs1 := sinv_subB ((b - a) / a) hs f1 (by rw [f2]; omega)
+    rw [updB_eq hA hB (sinv_post hs1)]
+    exact sinv_post hs1
+  · rw [if_neg e5]
+    have hq : (b - a) / a + 1 < B := by
+      have : (b - a) / a ≤ (b - a) / 2 ^ 33 := Nat.div_le_div_left h2a (by norm_num)
+      simp only [B_eq] at *; omega
+    rw [Nat.mod_eq_of_lt hq]
+    have hs1 := sinv_subB ((b - a) / a + 1) hs f3 (by rw [f4]; simp only [HALF] at e5; omega)
+    rw [updB_eq hA hB (sinv_post hs1)]
+    rw [f4] at hs1
+    exact ih .sA _ _ _ ⟨hs1, le_of_lt f5⟩
+
+/-- every program point keeps its invariant; whatever the loop returns (including on fuel
+    exhaustion, which therefore needs no separate termination argument) satisfies `Post`. -/
+theorem hgcd2Loop_post : ∀ (f : Nat) (pt : HPt) (a b : Nat) (m : M1),
+    HInv A0 B0 pt a b m → Post A0 B0 (hgcd2Loop f pt a b m)
+  | 0, pt, a, b, m, h => by
+    have : hgcd2Loop 0 pt a b m = m := by unfold hgcd2Loop; rfl
+    rw [this]; exact hinv_post h
+  | f + 1, .dA, a, b, m, h => loop_dA hA hB (hgcd2Loop_post f) h
+  | f + 1, .dB, a, b, m, h => loop_dB hA hB (hgcd2Loop_post f) h
+  | f + 1, .sA, a, b, m, h => loop_sA hA hB (hgcd2Loop_post f) h
+  | f + 1, .sB, a, b, m, h => loop_sB hA hB (hgcd2Loop_post f) h
+
+end loop
+
 end Mpir.Gcd
